@@ -48,6 +48,13 @@ CHECKS = {
         "Token.line/col describe the token's last character and Token.end is inclusive. Which token a ParseError should blame is not decided (only that it is a token and that the snippet matches it).",
         "DESIGN.md §C13",
     ),
+    "C05": (
+        "property-based testing / grammar-aware fuzzing (Hypothesis: valid statements, token-level mutations by the dialect's own tokenizer, keyword soups, random Unicode, scaled repetition and nesting) with an exception-family oracle and a deterministic work counter (sys.setprofile call counting) as termination/complexity oracle",
+        "Every generated input is parsed at a drawn error level in a drawn dialect and every returned tree is generated into two dialects; only SqlglotError subclasses may escape and the number of Python calls made inside sqlglot must stay below 40*n^2+400000 for n input characters, "
+        "which decides non-termination without a clock (two infinite loops in the parser were found this way and repaired). Inputs that a RAISE-level parse accepts are strict; leaks on invalid input are keyed by call site against a catalogue with a >=3-inputs floor.",
+        "RecursionError is an environment bound. Generation from trees of invalid input (IGNORE/WARN) is one listed known finding (open-ended call sites); ten parser call sites and two generator call sites are listed individually.",
+        "DESIGN.md §C05",
+    ),
     "C06": (
         "property-based testing (Hypothesis, typed expression grammar) with a truth-table differential oracle on SQLite, per-rule runtime observer",
         "Generated-input search: thousands of well-typed boolean/arithmetic expressions per run, each compared with its simplify()/normalize() result "
